@@ -22,7 +22,8 @@ Definition tail_facts (s3 s8 : socket) (r : tcp_repr) (al : Z) (aa : bool) (tx' 
     (timer_is_zero_window_probe (s_timer s8) = true -> learned_window s3 r = 0) /\
     (timer_is_idle (s_timer s8) = true ->
        aa = true \/ timer_is_idle (s_timer s3) = true \/
-       (s_remote_last_seq s8 =? s_local_seq_no s8) = true).
+       (s_remote_last_seq s8 =? s_local_seq_no s8) = true) /\
+    rt_max_seq_sent (s_rtte s8) = rt_max_seq_sent (s_rtte s3).
 
 Lemma learned_window_bound : forall s r, repr_ok r ->
   match s_remote_win_scale s with Some v => 0 <= v <= 14 | None => True end ->
@@ -55,10 +56,10 @@ Lemma ack_finish : forall g1 st_pre w0 wsc0 s3 s8 r d al (aof aa : bool) tx',
   end ->
   tail_facts s3 s8 r al aa tx' ->
   phase_ok (g_ack g1 d al aof) (s_state s3) (rb_len tx') (s_syn_unacked_in_fin_wait s8) ->
-  inv (g_ack g1 d al aof) s8.
+  tx_inv (g_ack g1 d al aof) s8 /\ tm_inv (g_ack g1 d al aof) s8.
 Proof.
   intros g1 st_pre w0 wsc0 s3 s8 r d al aof aa tx' Hpre Htm Hr Hws Hd Hal Hsyn Haof Hnaof Hack
-         (D1 & D2 & F1 & F2 & F3 & F4 & _ & _ & Fa & Fz & Fi) Hph.
+         (D1 & D2 & F1 & F2 & F3 & F4 & _ & _ & Fa & Fz & Fi & _) Hph.
   pose proof (learned_window_bound s3 r Hr Hws) as Hlw.
   pose proof Hpre as (Hwf & Hcap & Ha & Hlen & Hc & Hl & Hrl & Hfl & Hhw & Hph0 & Hw & Hs).
   pose proof Hwf as (Hl0 & _).
@@ -155,7 +156,8 @@ Qed.
    with ISS = the context's next ISN; otherwise SND.UNA advances by d >= 0 sequence numbers within
    the epoch, and d > 0 only for a non-RST segment whose acknowledgement number is exactly the new
    SND.UNA *)
-Definition proc_ghost (cx : ctx) (g : ghost) (s : socket) (r : tcp_repr) (g' : ghost) : Prop :=
+Definition proc_ghost (cx : ctx) (g : ghost) (s : socket) (r : tcp_repr) (g' : ghost) (s' : socket)
+  : Prop :=
   g' = g \/
   (s_state s = Listen /\ r_control r = CSyn /\ g_phase g = PSyn /\ g_fin g = false /\
    g_stream g = [] /\
@@ -167,7 +169,7 @@ Definition proc_ghost (cx : ctx) (g : ghost) (s : socket) (r : tcp_repr) (g' : g
      (0 < d -> r_control r <> CRst /\ r_ack_number r = Some (sq (g_iss g + g_una g + d)))) \/
   (* an RST aborting the handshake of a listening socket: back to LISTEN, a blank epoch *)
   (s_state s = SynReceived /\ r_control r = CRst /\ g_phase g = PSyn /\ g_fin g = false /\
-   g_stream g = [] /\ g' = g_fresh 0).
+   g_stream g = [] /\ g' = g_fresh 0 /\ s_state s' = Listen).
 
 Lemma g_ack_una : forall g d al (aof : bool),
   (g_phase g <> PSyn -> al = (if aof then d - 1 else d)) ->
@@ -191,10 +193,26 @@ Qed.
 Lemma reset_txv_like : forall s, s_remote_mss (tcp_reset s) = tcp_DEFAULT_MSS /\ True.
 Proof. intros. unfold tcp_reset. fld. auto. Qed.
 
+Lemma apply_mss_ge : forall s r, tcp_MIN_REMOTE_MSS <= s_remote_mss s ->
+  tcp_MIN_REMOTE_MSS <= s_remote_mss (tcp_apply_mss s r).
+Proof.
+  intros s r H. unfold tcp_apply_mss. destruct (r_max_seg_size r) as [m|]; [destruct (m =? 0)|]; fld;
+  try exact H. lia.
+Qed.
+
+Lemma st_next_not_listen : forall st c aof st', st_next st c aof st' -> st' = Listen -> False.
+Proof.
+  intros st c aof st' H E. subst st'. unfold st_next, st_rel in H.
+  destruct H as [(E & H & _)|(H & Hc)].
+  - subst st. exact H.
+  - destruct c; try congruence; cbn [cls] in H;
+    destruct H as [(_ & _ & [X|X])|[(X & Y & _)|(_ & X)]]; try lia; try discriminate.
+Qed.
+
 Theorem process_inv : forall cx g s ip r s' reply tags,
   inv g s -> ctx_ok cx -> repr_ok r ->
   tcp_process cx s ip r = Ok (s', reply, tags) ->
-  exists g', inv g' s' /\ ghost_rel g g' /\ learned s r s' /\ proc_ghost cx g s r g'.
+  exists g', inv g' s' /\ ghost_rel g g' /\ learned s r s' /\ proc_ghost cx g s r g' s'.
 Proof.
   intros cx g s ip r s' reply tags Hinv Hcx Hr H.
   unfold tcp_process in H.
@@ -244,17 +262,18 @@ Proof.
          assert (Hcr : r_control r = CRst) by (apply Hq2; exact K2).
          exists (g_fresh 0). subst s3.
          destruct (reset_fields s2) as (R1 & R2 & R3 & R4 & R5 & R6 & R7).
-         assert (Rm : s_remote_mss (tcp_reset s2) = tcp_DEFAULT_MSS) by (destruct (reset_txv_like s2); assumption).
-         revert R1 R2 R3 R4 R5 R6 R7 Rm. generalize (tcp_reset s2). intros s0 R1 R2 R3 R4 R5 R6 R7 Rm.
+         destruct (reset_fields2 s2) as (R8 & Rm).
+         revert R1 R2 R3 R4 R5 R6 R7 R8 Rm. generalize (tcp_reset s2). intros s0 R1 R2 R3 R4 R5 R6 R7 R8 Rm.
          split; [|split; [apply new_epoch_fresh|split]].
          + apply fresh_inv; unfold tcp_set_state; fld; rewrite ?R1, ?R2, ?R3, ?R4, ?R5, ?R6;
            [apply rb_clear_wf; exact Hwf | exact Hcap | reflexivity | split; [apply Z.le_refl|reflexivity]
            | reflexivity | reflexivity | unfold max_window; split; [apply Z.le_refl|discriminate]
-           | exact I | exact I | discriminate].
+           | exact I | exact I | discriminate | exact R8 | exact Rm].
          + right. unfold tcp_set_state. fld. rewrite R4, Rm.
            split; [exact Hcr|]. split; [congruence|]. auto.
          + right. right. right. split; [congruence|]. split; [exact Hcr|]. split; [exact P|].
-           split; [exact G0|]. split; [apply l_len_zero_nil; lia|reflexivity]. }
+           split; [exact G0|]. split; [apply l_len_zero_nil; lia|]. split; [reflexivity|].
+           unfold tcp_set_state. fld. reflexivity. }
   (* the table continues: c is not RST *)
   assert (Hnrst : r_control r <> CRst).
   { intro X. apply Hq2 in X.
@@ -264,7 +283,7 @@ Proof.
     - destruct T as (_ & Y & _). congruence.
     - destruct T as (_ & Y & _). congruence.
     - destruct T as (_ & _ & Y & _). discriminate. }
-  destruct Hinv2 as (Htx2 & Htm2).
+  destruct Hinv2 as (Htx2 & Htm2 & Hk2).
   destruct (ack_len_spec _ _ _ _ _ _ Htx2 Hr Hf2 Hnrst Hncl2 E3)
     as (d & Hd & Hal & Hsyn & Haof & Hnaof & Hack).
   apply tail_spec in H. destruct H as (tx' & Htail).
@@ -285,22 +304,24 @@ Proof.
      s_syn_unacked_in_fin_wait s3 = s_syn_unacked_in_fin_wait s2 /\
      s_remote_mss s3 = s_remote_mss s2 /\ s_remote_win_shift s3 = s_remote_win_shift s2 /\
      (timer_is_idle (s_timer s3) = true -> timer_is_idle (s_timer s2) = true) /\
-     st_next (s_state s2) c aof (s_state s3)) \/
+     st_next (s_state s2) c aof (s_state s3) /\
+     rt_max_seq_sent (s_rtte s3) = rt_max_seq_sent (s_rtte s2)) \/
     (c = CSyn /\ (s_state s2 = Listen \/ s_state s2 = SynSent))).
   { destruct T as [(T & Tc)|[(st' & tm & T & Htm & Hrel & Hret)|[T|[T|T5]]]];
       [| | | |destruct T5 as (_ & _ & Y & _); discriminate].
     - left. destruct (txv_proj _ _ T) as (B1 & B2 & B3 & B4 & B5 & B6 & B7 & B8 & B9 & B10).
-      repeat (split; [assumption|]). split; [congruence|].
+      repeat (split; [assumption|]). split; [congruence|]. split; [|exact (txv_msx _ _ T)].
       left. destruct (Tc eq_refl) as (C1 & C2 & _). auto.
     - left. destruct (txv_proj _ _ T) as (B1 & B2 & B3 & B4 & B5 & B6 & B7 & B8 & B9 & B10).
       fld_in B1. fld_in B2. fld_in B3. fld_in B4. fld_in B5. fld_in B6. fld_in B7. fld_in B8.
       fld_in B9. fld_in B10.
-      repeat (split; [assumption|]). split.
+      pose proof (txv_msx _ _ T) as B11. fld_in B11.
+      repeat (split; [assumption|]). split; [|split; [|exact B11]].
       + rewrite B7. destruct Htm as [->|(e & ->)]; [auto|discriminate].
       + right. rewrite B1. split; [exact Hrel|]. intro X. apply Hret in X. discriminate.
     - right. destruct T as (A & B & _). auto.
     - right. destruct T as (A & B & _). auto. }
-  destruct Hcommon as [(C2 & C3 & C4 & C6 & C10 & C8 & C9 & Cidle & Cnext)|(Csyn & Cst)].
+  destruct Hcommon as [(C2 & C3 & C4 & C6 & C10 & C8 & C9 & Cidle & Cnext & C11)|(Csyn & Cst)].
   - (* the table changed at most the state *)
     exists (g_ack g d al aof).
     assert (Hlen' : rb_len tx' = rb_len (s_tx_buffer s2) - al).
@@ -308,8 +329,16 @@ Proof.
       - assert (A2 : al > 0) by lia.
         destruct (rb_dequeue_allocated_spec _ _ _ Hwf Hal0 (D1 A2)) as (_ & _ & _ & L & _). exact L.
       - rewrite (D2 ltac:(lia)). lia. }
-    split; [|split; [|split]].
-    + eapply (ack_finish g (s_state s2) (s_remote_win_len s2) (s_remote_win_scale s2) s3 s' r d al aof aa tx').
+    assert (HU : g_una (g_ack g d al aof) = g_una g + d /\
+                 (g_phase g <> PSyn -> g_phase (g_ack g d al aof) <> PSyn)).
+    { apply g_ack_una; try assumption.
+      - intros P. destruct (Hsyn P) as (A1 & A2 & A3). unfold phase_ok in Hph. rewrite P in Hph.
+        destruct Hph as (A0 & _). auto.
+      - intros X. destruct (Haof X) as (A1 & _). exact A1.
+      - intros X P. specialize (Hnaof X). rewrite P in Hnaof. exact Hnaof. }
+    destruct HU as (U1 & U2).
+    assert (Htt : tx_inv (g_ack g d al aof) s' /\ tm_inv (g_ack g d al aof) s').
+    { eapply (ack_finish g (s_state s2) (s_remote_win_len s2) (s_remote_win_scale s2) s3 s' r d al aof aa tx').
       * rewrite C2, C3, C4, C10. exact Htx2.
       * intros Hi. rewrite C2. apply Htm2. auto.
       * exact Hr.
@@ -330,7 +359,18 @@ Proof.
            intros _. destruct Fa as (_ & _ & F). split; [exact F|tauto].
         -- destruct Htail as (_ & _ & _ & _ & _ & _ & _ & _ & Fa & _).
            destruct (r_ack_number r); cbn [is_some]; [discriminate|].
-           intros _. destruct Fa as (_ & _ & F). rewrite F, C10. tauto.
+           intros _. destruct Fa as (_ & _ & F). rewrite F, C10. tauto. }
+    destruct Htt as (Ht1 & Ht2).
+    split; [|split; [|split]].
+    + split; [exact Ht1|]. split; [exact Ht2|].
+      destruct Htail as (_ & _ & F1 & _ & _ & _ & F7 & _ & _ & _ & _ & F11).
+      eapply (kinv_step g s2 _ s' []); [exact Hk2|exact Ht1|reflexivity|cbn; symmetry; apply app_nil_r
+                                        |cbn; auto| | | | |].
+      * cbn [g_ack g_hw]. lia.
+      * rewrite U1. cbn [g_ack g_hw g_flight]. lia.
+      * congruence.
+      * rewrite F7, C8. destruct Hk2 as (_ & _ & K3 & _). exact K3.
+      * intros X. exfalso. rewrite F1 in X. eapply st_next_not_listen; eassumption.
     + left. unfold same_epoch, g_ack. cbn [g_iss g_stream g_acked g_hw g_fin].
       split; [reflexivity|]. split; [exists []; symmetry; apply app_nil_r|].
       split; [lia|]. split; [lia|]. auto.
@@ -339,16 +379,11 @@ Proof.
       split; [right; apply learned_window_eq; left; congruence|]. auto.
     + right. right. left. unfold g_ack at 1 2 3. cbn [g_iss g_stream g_fin].
       split; [reflexivity|]. split; [reflexivity|]. split; [reflexivity|].
-      destruct (g_ack_una g d al aof) as (U1 & U2); try assumption.
-      * intros P. destruct (Hsyn P) as (A1 & A2 & A3). unfold phase_ok in Hph. rewrite P in Hph.
-        destruct Hph as (A0 & _). auto.
-      * intros X. destruct (Haof X) as (A1 & _). exact A1.
-      * intros X P. specialize (Hnaof X). rewrite P in Hnaof. exact Hnaof.
-      * split; [exact U2|]. exists d. split; [exact Hd|]. split; [exact U1|].
-        split; [intros P; destruct (Hsyn P) as (_ & _ & X); exact X|].
-        intros Hd0. split; [exact Hnrst|].
-        destruct (r_ack_number r) as [a|]; [destruct Hack as (Ea & _); rewrite Ea; reflexivity|].
-        destruct Hack as (X & _). lia.
+      split; [exact U2|]. exists d. split; [exact Hd|]. split; [exact U1|].
+      split; [intros P; destruct (Hsyn P) as (_ & _ & X); exact X|].
+      intros Hd0. split; [exact Hnrst|].
+      destruct (r_ack_number r) as [a|]; [destruct Hack as (Ea & _); rewrite Ea; reflexivity|].
+      destruct Hack as (X & _). lia.
   - (* a SYN in LISTEN or SYN-SENT *)
     assert (Hcs : r_control r = CSyn) by (apply Hq3; exact Csyn).
     assert (HT : (s_state s2 = Listen /\
@@ -357,7 +392,8 @@ Proof.
        s_remote_win_scale s3 = r_window_scale r /\ timer_is_idle (s_timer s3) = true /\
        s_remote_mss s3 = s_remote_mss (tcp_apply_mss s2 r) /\
        s_remote_win_shift s3 = (if is_some (r_window_scale r) then s_remote_win_shift s2 else 0) /\
-       s_syn_unacked_in_fin_wait s3 = s_syn_unacked_in_fin_wait s2) \/
+       s_syn_unacked_in_fin_wait s3 = s_syn_unacked_in_fin_wait s2 /\
+       rt_max_seq_sent (s_rtte s3) = rt_max_seq_sent (s_rtte s2)) \/
       (s_state s2 = SynSent /\
        s_state s3 = (if is_some (r_ack_number r) then Established else SynReceived) /\
        s_local_seq_no s3 = s_local_seq_no s2 /\
@@ -367,7 +403,8 @@ Proof.
        s_remote_win_scale s3 = r_window_scale r /\ s_timer s3 = s_timer s2 /\
        s_remote_mss s3 = s_remote_mss (tcp_apply_mss s2 r) /\
        s_remote_win_shift s3 = (if is_some (r_window_scale r) then s_remote_win_shift s2 else 0) /\
-       s_syn_unacked_in_fin_wait s3 = s_syn_unacked_in_fin_wait s2)).
+       s_syn_unacked_in_fin_wait s3 = s_syn_unacked_in_fin_wait s2 /\
+       rt_max_seq_sent (s_rtte s3) = rt_max_seq_sent (s_rtte s2))).
     { destruct T as [(_ & Tc)|[(st' & tm & _ & _ & Hrel & _)|[T|[T|T5]]]];
         [| | | |destruct T5 as (_ & _ & Y & _); discriminate].
       - destruct (Tc eq_refl) as (C1 & _). destruct Cst as [E|E]; rewrite E in C1; tauto.
@@ -380,10 +417,10 @@ Proof.
       by (destruct Hr as (_ & _ & _ & X); exact X).
     assert (Hmss : s_remote_mss (tcp_apply_mss s2 r) = s_remote_mss (tcp_apply_mss s r)).
     { unfold tcp_apply_mss. destruct (r_max_seg_size r) as [m|]; [destruct (m =? 0)|]; fld; auto. }
-    destruct Htail as (D1 & D2 & F1 & F2 & F3 & F4 & F7 & F8 & Fa & Fz & Fi).
+    destruct Htail as (D1 & D2 & F1 & F2 & F3 & F4 & F7 & F8 & Fa & Fz & Fi & F11).
     assert (Htl : tail_facts s3 s' r al aa tx') by (repeat split; assumption).
-    destruct HT as [(Ks & K1 & K3 & K4 & Kt & K5 & K6 & K7 & K8 & K9 & K10)|
-                    (Ks & K1 & K3 & K4 & Kt & K5 & K6 & K7 & K8 & K9 & K10)].
+    destruct HT as [(Ks & K1 & K3 & K4 & Kt & K5 & K6 & K7 & K8 & K9 & K10 & K11)|
+                    (Ks & K1 & K3 & K4 & Kt & K5 & K6 & K7 & K8 & K9 & K10 & K11)].
     + (* LISTEN: a new connection, a new epoch of the ghost *)
       unfold ack_facts in Hf2. rewrite Ks in Hph, Hf2. unfold phase_ok in Hph.
       destruct (g_phase g) eqn:P; try tauto.
@@ -392,8 +429,9 @@ Proof.
       rewrite Hf2 in Hack, Fa. destruct Hack as (-> & -> & -> & -> & _).
       set (g1 := mkGhost (cx_isn cx) [] 0 PSyn 0 false 0).
       assert (Etx : tx' = s_tx_buffer s2) by (rewrite (D2 ltac:(lia)); exact Kt).
-      exists (g_ack g1 0 0 false). split; [|split; [|split]].
-      * eapply (ack_finish g1 SynReceived (s_remote_win_len s2) (r_window_scale r) s3 s' r 0 0 false false tx');
+      exists (g_ack g1 0 0 false).
+      assert (Htt : tx_inv (g_ack g1 0 0 false) s' /\ tm_inv (g_ack g1 0 0 false) s').
+      { eapply (ack_finish g1 SynReceived (s_remote_win_len s2) (r_window_scale r) s3 s' r 0 0 false false tx');
           try exact Htl; try exact Hr; try lia; try (cbn; discriminate); try (cbn; auto; fail).
         -- rewrite Kt, K3, K4. unfold tx_inv_f, g1. cbn [g_acked g_stream g_iss g_flight g_hw].
            unfold g_una, g_budget, phase_ok, g_W. cbn [g_phase g_acked g_fin g_stream].
@@ -405,7 +443,13 @@ Proof.
         -- rewrite K6. exact Hwsr.
         -- rewrite Hf2. auto.
         -- rewrite K1, Etx, L0. unfold phase_ok, g_ack, g1. cbn. rewrite Z.eqb_refl.
-           repeat split; (lia || reflexivity).
+           repeat split; (lia || reflexivity). }
+      destruct Htt as (Ht1 & Ht2). split; [|split; [|split]].
+      * split; [exact Ht1|]. split; [exact Ht2|].
+        destruct Hk2 as (_ & _ & Km & Kl).
+        unfold kinv. rewrite F11, K11, (Kl Ks), F7, K8, F1, K1.
+        split; [unfold g_ack, g1, g_una; cbn; lia|]. split; [exact I|].
+        split; [apply apply_mss_ge; exact Km|discriminate].
       * right. unfold new_epoch, g_ack, g1. cbn. auto.
       * left. unfold learned_core. rewrite F3, F7, F8, K8, K9, Hmss, X9.
         split; [right; apply learned_window_eq; right; exact Hcs|]. auto.
@@ -420,8 +464,9 @@ Proof.
       * destruct Hack as (Eack & Eaa & Ed1). specialize (Ed1 eq_refl). subst d.
         set (g1 := mkGhost (g_iss g) (g_stream g) (g_acked g) PSyn 1 (g_fin g) (Z.max (g_hw g) 1)).
         assert (U1 : g_una g = 0) by (unfold g_una; rewrite P; reflexivity).
-        exists (g_ack g1 1 0 false). split; [|split; [|split]].
-        -- eapply (ack_finish g1 SynSent (s_remote_win_len s2) (r_window_scale r) s3 s' r 1 0 false aa tx');
+        exists (g_ack g1 1 0 false).
+        assert (Htt : tx_inv (g_ack g1 1 0 false) s' /\ tm_inv (g_ack g1 1 0 false) s').
+        { eapply (ack_finish g1 SynSent (s_remote_win_len s2) (r_window_scale r) s3 s' r 1 0 false aa tx');
              try exact Htl; try exact Hr; try lia; try (cbn; discriminate); try (cbn; auto; fail).
            ++ rewrite Kt, K3, K4, K10, Hl, seq_add_sq.
               unfold tx_inv_f, g1. cbn [g_acked g_stream g_iss g_flight g_hw].
@@ -436,7 +481,18 @@ Proof.
               rewrite Eaa. unfold g1. cbn [g_flight]. unfold g_budget in Hfl. rewrite P in Hfl.
               destruct (Z.leb_spec (g_flight g) 1); [reflexivity|lia].
            ++ rewrite K1, Etx, L0. destruct Fa as (_ & _ & ->).
-              unfold phase_ok, g_ack, g1. cbn. split; [exact G0|reflexivity].
+              unfold phase_ok, g_ack, g1. cbn. split; [exact G0|reflexivity]. }
+        destruct Htt as (Ht1 & Ht2). split; [|split; [|split]].
+        -- split; [exact Ht1|]. split; [exact Ht2|].
+           assert (Ug : g_una (g_ack g1 1 0 false) = 1).
+           { unfold g_una, g_ack, g1. cbn [g_phase g_acked]. destruct (Z.eqb_spec 1 0); lia. }
+           eapply (kinv_step g s2 _ s' []); [exact Hk2|exact Ht1|reflexivity|cbn; symmetry; apply app_nil_r
+                                             |cbn; auto| | | | |].
+           ++ unfold g_ack, g1. cbn [g_hw]. lia.
+           ++ rewrite Ug. unfold g_ack, g1, g_una. cbn [g_hw g_flight g_phase]. lia.
+           ++ congruence.
+           ++ rewrite F7, K8. destruct Hk2 as (_ & _ & Km & _). apply apply_mss_ge. exact Km.
+           ++ rewrite F1, K1. discriminate.
         -- left. unfold same_epoch, g_ack, g1. cbn [g_iss g_stream g_acked g_hw g_fin].
            split; [reflexivity|]. split; [exists []; symmetry; apply app_nil_r|].
            split; [lia|]. split; [lia|]. auto.
@@ -448,8 +504,9 @@ Proof.
            split; [unfold g_una; cbn [g_phase g_acked]; rewrite P; destruct (Z.eqb_spec 1 0); lia|].
            split; [lia|]. intros _. split; [exact Hnrst|]. rewrite Ea. f_equal. exact Eack.
       * destruct Hack as (-> & _ & _ & -> & _).
-        exists (g_ack g 0 0 false). split; [|split; [|split]].
-        -- eapply (ack_finish g SynSent (s_remote_win_len s2) (r_window_scale r) s3 s' r 0 0 false false tx');
+        exists (g_ack g 0 0 false).
+        assert (Htt : tx_inv (g_ack g 0 0 false) s' /\ tm_inv (g_ack g 0 0 false) s').
+        { eapply (ack_finish g SynSent (s_remote_win_len s2) (r_window_scale r) s3 s' r 0 0 false false tx');
              try exact Htl; try exact Hr; try lia; try (rewrite P; cbn; discriminate);
              try (rewrite P; cbn; auto; fail).
            ++ rewrite Kt, K3, K4, K10.
@@ -461,7 +518,18 @@ Proof.
            ++ rewrite Ea. auto.
            ++ rewrite K1, Etx, L0. destruct Fa as (_ & _ & ->). rewrite K10.
               unfold phase_ok, g_ack. cbn [g_phase g_acked g_fin g_flight]. rewrite P. cbn.
-              split; [lia|]. split; [lia|]. exact G0.
+              split; [lia|]. split; [lia|]. exact G0. }
+        destruct Htt as (Ht1 & Ht2). split; [|split; [|split]].
+        -- split; [exact Ht1|]. split; [exact Ht2|].
+           assert (Ug : g_una (g_ack g 0 0 false) = g_una g).
+           { unfold g_una, g_ack. cbn [g_phase g_acked]. rewrite P, Z.eqb_refl. reflexivity. }
+           eapply (kinv_step g s2 _ s' []); [exact Hk2|exact Ht1|reflexivity|cbn; symmetry; apply app_nil_r
+                                             |cbn; auto| | | | |].
+           ++ unfold g_ack. cbn [g_hw]. lia.
+           ++ rewrite Ug. unfold g_ack. cbn [g_hw g_flight]. lia.
+           ++ congruence.
+           ++ rewrite F7, K8. destruct Hk2 as (_ & _ & Km & _). apply apply_mss_ge. exact Km.
+           ++ rewrite F1, K1. discriminate.
         -- left. unfold same_epoch, g_ack. cbn [g_iss g_stream g_acked g_hw g_fin].
            split; [reflexivity|]. split; [exists []; symmetry; apply app_nil_r|].
            split; [lia|]. split; [lia|]. auto.
